@@ -376,7 +376,8 @@ func (i *interpreter) concreteLen(x value, what string) int {
 		panic(pathAbort{kind: "violation-end", info: "alloc"})
 	}
 	max := uint64(i.sh.opts.maxFanout)
-	small := tb.Cmp(opUle, t, tb.Const(64, max))
+	small := tb.Cmp(opUlt, t, tb.Const(64, max))
+	max--
 	if i.decide(small) {
 		return int(i.concretize(t, what))
 	}
